@@ -10,6 +10,11 @@ BUILDS = {
                 "--target-dir", "/verif/target/alt"],
         "bin": "/verif/target/alt/release/harness",
     },
+    # the harness interpreted by Miri (no cluster feature: prost/bytes are not needed for the protocols Miri looks at)
+    "miri": {
+        "cmd": ["/verif/lib/miri_run.sh", "C07", "--engine", "miri", "--count", "0", "--shard", "1", "--out", "/verif/target/miri-warm.json"],
+        "bin": "/verif/lib/miri_run.sh",
+    },
 }
 
 HOOK_COMMITS = ["9bb871a", "5fa190b", "b49a9e6"]
@@ -137,6 +142,7 @@ PROPS = {
         "runs": [
             {"engine": "vt", "quick": 8000, "thorough": 600000, "what": "E-A: all wait APIs, timeouts on the virtual clock, snapshot at return"},
             {"engine": "th", "quick": 24000, "thorough": 2000000, "what": "E-T: detached-cell and live-actor lost-wake-up / early-return oracle with noise at WAIT_AFTER_NOTIFIED, STATUS_BEFORE_NOTIFY, NOTIFY_BETWEEN"},
+            {"engine": "miri", "build": "miri", "quick": 96, "thorough": 4000, "timeout_s": 7200, "what": "E-M: the detached-cell wait/notify scenarios (2 waiters + exiter) interpreted by Miri: UB, data races, weak-memory emulation; yield/rendezvous at the H1 points"},
         ],
     },
     "C07": {
@@ -158,6 +164,7 @@ PROPS = {
         "runs": [
             {"engine": "th", "quick": 16000, "thorough": 1500000, "what": "E-T: detached mailbox (4/5) and live actor (1/5) under noise + rendezvous at the protocol's atomic steps"},
             {"engine": "vt", "quick": 8000, "thorough": 400000, "what": "E-A: live instant-spawned actor drained at 8 lifecycle stages (incl. before start / during pre_start), linked and unlinked"},
+            {"engine": "miri", "build": "miri", "quick": 96, "thorough": 4000, "timeout_s": 7200, "what": "E-M: the detached-mailbox drain/admission scenarios (<= 2 senders x 2, <= 2 drainers) interpreted by Miri: UB, data races and weak-memory emulation on the Relaxed admission CAS; yield/rendezvous at the H1 points"},
         ],
     },
     "C08": {
